@@ -1384,6 +1384,10 @@ class Py2Cpp(ITranspiler):
 		return self.render(node, 'operation/unary_operator', vars={'operator': operator, 'value': value})
 
 	def on_not_compare(self, node: defs.NotCompare, operator: str, value: str) -> str:
+		# C++の`!`は比較/論理/算術演算子より優先度が高いため、Pythonの`not a == b`は`!(a == b)`として出力する
+		if isinstance(node.value, defs.BinaryOperator):
+			value = f'({value})'
+
 		return self.render(node, 'operation/unary_operator', vars={'operator': '!', 'value': value})
 
 	def on_or_compare(self, node: defs.OrCompare, elements: list[str]) -> str:
